@@ -38,6 +38,12 @@ def _scale(n, k: int):
     return _sum(c * k, {a: b * k for a, b in t.items()})
 
 
+def _mono(a, b):
+    fa = list(a[1:]) if a[0] == "*" else [a]
+    fb = list(b[1:]) if b[0] == "*" else [b]
+    return ("*",) + tuple(sorted(fa + fb, key=repr))
+
+
 def nf(e: ast.AST, env: Dict[str, Any]):
     """env maps names / dotted names to already-normalised forms (role symbols or substituted locals)."""
     d = dotted(e)
@@ -74,7 +80,30 @@ def nf(e: ast.AST, env: Dict[str, Any]):
                 return _scale(b, a[1])
             if b[0] == "c":
                 return _scale(a, b[1])
-            return ("*",) + tuple(sorted((a, b), key=repr))
+            if a[0] == "sum" or b[0] == "sum":
+                # distribute: (c + Σ k_i t_i) * u  =  c*u + Σ k_i (t_i * u)
+                s_, o_ = (a, b) if a[0] == "sum" else (b, a)
+                c0, ts = _as_sum(s_)
+                acc_c, acc_t = 0, {}
+                parts = [(("c", 1), c0)] + [(t, k) for t, k in ts.items()]
+                oc, ot = _as_sum(o_)
+                oparts = [(("c", 1), oc)] + [(t, k) for t, k in ot.items()]
+                for t1, k1 in parts:
+                    for t2, k2 in oparts:
+                        k = k1 * k2
+                        if k == 0:
+                            continue
+                        if t1 == ("c", 1) and t2 == ("c", 1):
+                            acc_c += k
+                        elif t1 == ("c", 1):
+                            acc_t[t2] = acc_t.get(t2, 0) + k
+                        elif t2 == ("c", 1):
+                            acc_t[t1] = acc_t.get(t1, 0) + k
+                        else:
+                            mon = _mono(t1, t2)
+                            acc_t[mon] = acc_t.get(mon, 0) + k
+                return _sum(acc_c, acc_t)
+            return _mono(a, b)
         if isinstance(op, ast.LShift):
             if b[0] == "c" and a[0] == "c":
                 return ("c", a[1] << b[1])
